@@ -146,20 +146,21 @@ Fixpoint top_assigns (b : list stmt) : list wv :=
 Definition run_env (prog orc : list wv) : wv :=
   match dec_stmts prog, dec_nats orc with
   | Some p, Some o =>
-      WL [ wbool (match tblock p [] [] with Some _ => true | None => false end);
+      WL [ wbool (match tblock [] p [] [] with Some _ => true | None => false end);
            wbool (is_fresh p); enc_outs (firmware_outputs p o); enc_outs (python_outputs p o);
            (* read when parsing is complete, like the emitter (and the harness) reads the IR: Lang/ConstNodes.emitted *)
            WL (match emitted false p with Some res => obs_block res | None => [] end);
            WL [ wbool (split_ok p); enc_outs (sketch_outputs p o);
                 WL (match ttop p [] [] [] with Some (_, _, gs, _, _, _) => map enc_global gs | None => [] end);
                 WL (match ttop p [] [] [] with Some (_, _, _, body, _, _) => top_assigns body | None => [] end) ];
-           (* the flow guard, and the hoisting side conditions of the module-level split alone *)
-           WL [ wbool (flow_ok p); wbool (match ttop p [] [] [] with Some (_, _, _, _, _, h) => h | None => false end) ] ]
+           (* (the flow guard of the unrepaired transpiler: now the same flag), and the hoisting side conditions of the
+              module-level split alone *)
+           WL [ wbool (is_fresh p); wbool (match ttop p [] [] [] with Some (_, _, _, _, _, h) => h | None => false end) ] ]
   | _, _ => wbad
   end.
 
-(* ---- case 2: (2 prefix params body mid args oracle) -> (accepted def_ok firmware python static-obs-of-the-body)
-   args are expressions evaluated in the module state at the call *)
+(* ---- case 2: (2 prefix params body mid post args oracle) -> (accepted def_ok firmware python static-obs-of-the-body static-obs-of-mid)
+   args are expressions evaluated in the module state at the call; post = the module statements after the call *)
 Fixpoint dec_vals (l : list wv) : option (list pval) :=
   match l with
   | [] => Some []
@@ -167,14 +168,15 @@ Fixpoint dec_vals (l : list wv) : option (list pval) :=
   end.
 Definition enc_outs2 (o : option (list pval * list pval)) : wv :=
   match o with Some (a, b) => WL [WL (map enc_val a); WL (map enc_val b)] | None => WL [] end.
-Definition run_def (prefix ps body mid vals orc : list wv) : wv :=
-  match dec_stmts prefix, dec_texts ps, dec_stmts body, dec_stmts mid, dec_vals vals, dec_nats orc with
-  | Some p, Some xs, Some b, Some m, Some vs, Some o =>
-      WL [ wbool (match tdef p xs b m with Some _ => true | None => false end);
-           wbool (def_ok p xs b m);
-           enc_outs2 (firmware_call_outputs p xs b m vs o); enc_outs2 (python_call_outputs p xs b m vs o);
-           WL (match tdef p xs b m with Some (_, rb, _) => obs_block rb | None => [] end) ]
-  | _, _, _, _, _, _ => wbad
+Definition run_def (prefix ps body mid post vals orc : list wv) : wv :=
+  match dec_stmts prefix, dec_texts ps, dec_stmts body, dec_stmts mid, dec_stmts post, dec_vals vals, dec_nats orc with
+  | Some p, Some xs, Some b, Some m, Some q, Some vs, Some o =>
+      WL [ wbool (match tdef p xs b m q with Some _ => true | None => false end);
+           wbool (def_ok p xs b m q);
+           enc_outs2 (firmware_call_outputs p xs b m q vs o); enc_outs2 (python_call_outputs p xs b m vs o);
+           WL (match tdef p xs b m q with Some (_, rb, _) => obs_block rb | None => [] end);
+           WL (match tdef p xs b m q with Some (rp, _, rm) => obs_block (rp ++ rm) | None => [] end) ]
+  | _, _, _, _, _, _, _ => wbad
   end.
 
 Definition run (v : wv) : wv :=
@@ -193,6 +195,6 @@ Definition run (v : wv) : wv :=
       | _, _ => wbad
       end
   | WL [WI 1; WL prog; WL orc] => run_env prog orc
-  | WL [WI 2; WL prefix; WL ps; WL body; WL mid; WL vals; WL orc] => run_def prefix ps body mid vals orc
+  | WL [WI 2; WL prefix; WL ps; WL body; WL mid; WL post; WL vals; WL orc] => run_def prefix ps body mid post vals orc
   | _ => wbad
   end.
